@@ -3,5 +3,5 @@
 seed=$1; budget=$2; workers=$3; shift 3
 props="$@"; [ -z "$props" ] && props="C03 C04 C05 C06 C07 C08 C09 C11 C12 C13 C20 C21 C22 C23 C24 C25 C26 C27 C28 C29 C30"
 for p in $props; do
-  /verif/bin/vcheck $p --tier quick --seed $seed --budget $budget --workers $workers 2>&1 | grep -E "^VIOLATION|^vcheck done|HARNESS-ERROR" | cut -c1-260
+  /verif/bin/vcheck $p --tier ${TIER:-quick} --seed $seed --budget $budget --workers $workers 2>&1 | grep -E "^VIOLATION|^vcheck done|HARNESS-ERROR" | cut -c1-260
 done
